@@ -43,6 +43,25 @@ INPUTS = {
     'dts': '(declare-datatypes ((L 0)) (((nil) (cons (hd Bool) (tl L)))))\n(assert (= nil nil))\n',
     'mixed': '(declare-const v (_ BitVec 8))\n(declare-const i Int)\n(declare-const s String)\n(assert (= v v))\n',
 }
+# every sort of every theory at the *result* position of each kind of
+# declaration (and nowhere else in the input)
+for _n, _s, _lit in [('rm', 'RoundingMode', 'RNE'),
+                     ('fp32', 'Float32', '(_ NaN 8 24)'),
+                     ('fp', '(_ FloatingPoint 5 11)', '(_ NaN 5 11)'),
+                     ('str', 'String', '"a"'),
+                     ('seq', '(Seq Bool)', '(as seq.empty (Seq Bool))'),
+                     ('int', 'Int', '1'), ('real', 'Real', '1.5'),
+                     ('bv', '(_ BitVec 8)', '#x01')]:
+    INPUTS[f'{_n}-declare-fun-result'] = (
+        f'(declare-fun r () {_s})\n(declare-const b Bool)\n(assert b)\n')
+    INPUTS[f'{_n}-declare-fun-result-1'] = (
+        f'(declare-fun r (Bool) {_s})\n(declare-const b Bool)\n'
+        f'(assert b)\n')
+    INPUTS[f'{_n}-define-fun-result'] = (
+        f'(define-fun r () {_s} {_lit})\n(declare-const b Bool)\n'
+        f'(assert b)\n')
+    INPUTS[f'{_n}-define-sort'] = (
+        f'(define-sort R () {_s})\n(declare-const b Bool)\n(assert b)\n')
 
 
 def declares(nested, theory):
